@@ -207,7 +207,7 @@ var framesSuite = &suite{
 		} else {
 			muts = []fmut{{raw: fc.raw, class: "valid", desc: "well-formed"}}
 		}
-		if c.thorough || !strings.Contains(fc.name, "refcql:") {
+		if wantHeaderMutants(fc, c.thorough) {
 			muts = append(muts, headerMutants(fc)...)
 		}
 		consumers := []string{"scan-meta"}
@@ -228,7 +228,7 @@ var framesSuite = &suite{
 			if !strings.Contains(fc.name, "[hdr]") || fc.compressor != nil {
 				n += len(bodyMutants(fc, 0))
 			}
-			if thorough || !strings.Contains(fc.name, "refcql:") {
+			if wantHeaderMutants(fc, thorough) {
 				n += len(headerMutants(fc))
 			}
 			kinds[fc.name[strings.Index(fc.name, "/")+1:]] = true
@@ -237,9 +237,21 @@ var framesSuite = &suite{
 		r.Extra("frames.kinds", len(kinds))
 		r.Extra("frames.mutants", n)
 		ruleParts = append(ruleParts, fmt.Sprintf(
-			"(d) frames: %d well-formed response frames (%d of them one per shape class and version of engine/refcql/frame's reference catalogue, protocol {2,4} quick / {1..5} thorough; the rest a hand-encoded catalogue; %d kinds in all: ERROR of every code incl. v5 reason maps and an unknown code, READY, AUTHENTICATE, SUPPORTED, AUTH_CHALLENGE/SUCCESS, RESULT void/set_keyspace/schema_change(all targets)/prepared(3 shapes)/unknown kind, EVENT topology/status(v4,v6)/schema/unknown, flags tracing+warning+payload, snappy-compressed variants; x protocol {2,3,4,5}) x {well-formed, stream ending at every offset, body cut at every offset with adjusted length, every length/count field incl. the header length replaced by {-2^31,-2,-1,0,1,n-1,n+1,65535,2^31-1}, header: version byte 0..7 in both directions + 7f/ff, each flag bit toggled + 00/ff, stream {-1,0,1,max,min,-2,0x4000}, every opcode 0..0x10 + {11,7f,80,ff} (quick tier: header fields only on the hand-encoded frames)} (%d byte strings); stream -1 goes down the event path (parse + Session.handleEvent), everything else is parsed (rows: iterated with Scan into RowData; thorough: reference-catalogue rows also with Scanner, MapScan, SliceMap); non-trivial = parseFrame ran",
+			"(d) frames: %d well-formed response frames (%d of them one per shape class and version of engine/refcql/frame's reference catalogue, protocol {2,4} quick / {1..5} thorough; the rest a hand-encoded catalogue; %d kinds in all: ERROR of every code incl. v5 reason maps and an unknown code, READY, AUTHENTICATE, SUPPORTED, AUTH_CHALLENGE/SUCCESS, RESULT void/set_keyspace/schema_change(all targets)/prepared(3 shapes)/unknown kind, EVENT topology/status(v4,v6)/schema/unknown, flags tracing+warning+payload, snappy-compressed variants; x protocol {2,3,4,5}) x {well-formed, stream ending at every offset, body cut at every offset with adjusted length, every length/count field incl. the header length replaced by {-2^31,-2,-1,0,1,n-1,n+1,65535,2^31-1}, header: version byte 0..7 in both directions + 7f/ff, each flag bit toggled + 00/ff, stream {-1,0,1,max,min,-2,0x4000}, every opcode 0..0x10 + {11,7f,80,ff} (header fields: on the hand-encoded frames; thorough also on the plainest frame of each reference class family)} (%d byte strings); stream -1 goes down the event path (parse + Session.handleEvent), everything else is parsed (rows: iterated with Scan into RowData; thorough: reference-catalogue rows also with Scanner, MapScan, SliceMap); non-trivial = parseFrame ran",
 			len(cat), nref, len(kinds), n))
 	},
+}
+
+// wantHeaderMutants: header fields are replaced on every hand-encoded frame and, in the
+// thorough tier, on the plainest frame of every reference-catalogue class family (the
+// header does not depend on the rest of the shape; each version-byte replacement makes
+// readFrame allocate a garbage length of up to 256 MiB, which is slow).
+func wantHeaderMutants(fc *frameCase, thorough bool) bool {
+	i := strings.Index(fc.name, "refcql:")
+	if i < 0 {
+		return true
+	}
+	return thorough && quickClass(fc.name[i+len("refcql:"):])
 }
 
 func baseName(fc *frameCase) string { return fc.name[strings.Index(fc.name, "/")+1:] }
